@@ -315,7 +315,7 @@ func checkConstructive(c conCase, r *h.Rec) error {
 		}
 		// t all zero: 7.1 B4 refuses, whatever C3 says
 		for _, o := range decOpts {
-			pt, err, pan := call(func() ([]byte, error) { return o.Run(priv, append([]byte{}, ct...)) })
+			pt, err, pan := call(func() ([]byte, error) { return o.Run(priv, own(ct)) })
 			if pan != "" {
 				return fmt.Errorf("%s panicked on a %v byte string whose KDF output is all zero: %s", o.Name, l, pan)
 			}
